@@ -32,11 +32,16 @@ type ErrCase struct {
 	CL     string `json:"content_length"`
 	Body   int    `json:"body_len"`
 	Go     Parsed `json:"go"`
+	Reason  string `json:"reason"`
+	PName   string `json:"pname"`
+	Msg     string `json:"msg"`
+	ErrText string `json:"err_text"`
 }
 
 // Coq renders the case as G12.Check12.ecase.
 func (c ErrCase) Coq() string {
-	return fmt.Sprintf("(mkecase %s %d %s %d %d %d)", c.Feat.Coq(), c.Code, coqfmt.Bytes(c.Raw), verdictN(c.Go.Verdict), c.Go.Status, c.Go.BodyLen)
+	return fmt.Sprintf("(mkecase %s %d %s %d %d %d %s %s %s %s)", c.Feat.Coq(), c.Code, coqfmt.Bytes(c.Raw), verdictN(c.Go.Verdict), c.Go.Status, c.Go.BodyLen,
+		coqfmt.Str(c.Reason), coqfmt.Str(c.PName), coqfmt.Str(c.Msg), coqfmt.Str(c.ErrText))
 }
 
 func verdictN(v string) int {
@@ -146,6 +151,11 @@ func ClassifierCases(tier string, seed uint64, statusLits []int) ([]ErrCase, err
 			ErrHdr: res.Header.Get(forwarder.ErrorHeader), CL: res.Header.Get("Content-Length")}
 		c.Go = ParseResponse(buf.Bytes(), true, false)
 		c.Body = c.Go.BodyLen
+		// the parts the response is built from: proxy name, the handler's message, the error text, the reason phrase
+		c.Reason, c.PName, c.ErrText = http.StatusText(res.StatusCode), cfg.Name, e.Error()
+		if b := string(c.Go.Body); len(b) >= len(c.PName)+1+1+len(c.ErrText)+1 {
+			c.Msg = b[len(c.PName)+1 : len(b)-len(c.ErrText)-2]
+		}
 		out = append(out, c)
 	}
 	atoms := errAtoms()
